@@ -60,7 +60,40 @@ Section Top.
     intros k ρ' st' step HI' Hk Hs.
     eapply step_refines_plain with (cfg := cfg); try eassumption; reflexivity.
   Qed.
+
+  (* STAGE 4 (and 2, 3 again): every sync kind - join!, try_join!, join_spawn!, try_join_spawn! *)
+  Theorem refine_sync cfg inp e sp :
+    is_async cfg = false ->
+    wf inp -> gen cfg inp = Ok e -> prepare cfg inp = Some sp ->
+    den (user_names inp) msem dotsem callsem awaitsem e empty_env = spec msem dotsem callsem awaitsem sp.
+  Proof.
+    intros Ha Hwf Hg Hp.
+    destruct (gen_inv cfg inp e Hg) as (fcp & j & Hj & Ho & Hpats).
+    pose proof (rel_of_gen cfg inp fcp j sp Hwf Hj Hp) as HR.
+    assert (Hun : user_names inp = flat_map opt_list (map pat_name (j_pats j))).
+    { rewrite Hpats. apply user_names_pats. }
+    eapply gen_output_sync with (cfg := cfg) (j := j); try eassumption.
+    intros ss se Hgs ρ st HI.
+    assert (Hstep : step_hyp (user_names inp) msem dotsem callsem awaitsem cfg j sp).
+    { eapply step_sync; eassumption. }
+    destruct (is_try cfg) eqn:Ht.
+    - eapply steps_try with (cfg := cfg); try eassumption; reflexivity.
+    - eapply steps_nontry with (cfg := cfg); try eassumption; reflexivity.
+  Qed.
+
+  Corollary refine_join_spawn inp e sp :
+    let cfg := {| is_async := false; is_try := false; is_spawn := true |} in
+    wf inp -> gen cfg inp = Ok e -> prepare cfg inp = Some sp ->
+    den (user_names inp) msem dotsem callsem awaitsem e empty_env = spec msem dotsem callsem awaitsem sp.
+  Proof. intros cfg. apply refine_sync. reflexivity. Qed.
+
+  Corollary refine_try_join_spawn inp e sp :
+    let cfg := {| is_async := false; is_try := true; is_spawn := true |} in
+    wf inp -> gen cfg inp = Ok e -> prepare cfg inp = Some sp ->
+    den (user_names inp) msem dotsem callsem awaitsem e empty_env = spec msem dotsem callsem awaitsem sp.
+  Proof. intros cfg. apply refine_sync. reflexivity. Qed.
 End Top.
 
 Print Assumptions refine_join.
 Print Assumptions refine_try_join.
+Print Assumptions refine_sync.
